@@ -748,7 +748,8 @@ class VAMTransmissionManagement:
 
         The manager describes the bounding box as ``{"circular": {"radius": <metres>}}``;
         the ASN.1 ``Shape`` is a CHOICE (encoded from a ``(name, value)`` tuple) whose
-        radius is a StandardLength12b in units of 0.1 m.
+        radius is a StandardLength12b in units of 0.1 m; the cluster profiles are a
+        4-bit BIT STRING.
         """
         info = dict(cluster_info["vruClusterInformation"])
         shape = info.get("clusterBoundingBoxShape")
@@ -756,6 +757,10 @@ class VAMTransmissionManagement:
             circular = dict(shape["circular"])
             circular["radius"] = min(4095, int(circular["radius"] * 10))
             info["clusterBoundingBoxShape"] = ("circular", circular)
+        profiles = info.get("clusterProfiles")
+        if isinstance(profiles, (bytes, bytearray)):
+            # VruClusterProfiles ::= BIT STRING (SIZE(4)), encoded from (bytes, number of bits)
+            info["clusterProfiles"] = (bytes(profiles), 4)
         return {"vruClusterInformation": info}
 
     def send_next_vam(self, vam: VAMMessage) -> None:
